@@ -311,8 +311,7 @@ Section ServerProofs.
     intros Hw. unfold HTTPServer.index_handle, HTTPServer.index_serve.
     destruct (auth_denied c r); [reflexivity|]. rewrite Hw. cbn [negb].
     destruct (r_method r); cbn [index_exec]; try reflexivity.
-    - destruct (fs_open d (base (r_path r))); try reflexivity. destruct (idx_decode content); reflexivity.
-    - destruct (fs_open d (base (r_path r))); reflexivity.
+    destruct (fs_open d (base (r_path r))); try reflexivity. destruct (idx_decode content); reflexivity.
   Qed.
 
   Lemma special_name_false n :
@@ -338,7 +337,7 @@ Section ServerProofs.
     destruct (r_method r) eqn:Em; cbn [index_exec] in E.
     - destruct (fs_open d n); try (injection E as _ <-; congruence).
       destruct (idx_decode content); injection E as _ <-; congruence.
-    - destruct (fs_open d n); injection E as _ <-; congruence.
+    - injection E as _ <-; congruence.
     - destruct (c_writable c) eqn:Ew; cbn [negb] in E; [|injection E as _ <-; congruence].
       destruct (c_store_writable c); cbn [negb] in E; [|injection E as _ <-; congruence].
       destruct (idx_decode (r_body r)) as [ix|] eqn:Ed; [|injection E as _ <-; congruence].
